@@ -153,6 +153,21 @@ class SymSeq:
         return RowVal([Sym(z3.Select(c, i)) for c in self.cols], self.kind)
 
 
+class SeqSlice(SymSeq):
+    """seq[lo:] of a symbolic sequence for 0 <= lo (the obligation is raised where the slice is taken): element j is base[lo + j].
+    Columns are lambda arrays; `get` reads the base directly so that terms keep the base arrays' names."""
+
+    def __init__(self, base, lo):
+        j = z3.Int('slice_j')
+        n = z3.If(base.length - lo >= 0, base.length - lo, z3.IntVal(0))
+        SymSeq.__init__(self, n, [z3.Lambda([j], z3.Select(c, j + lo)) for c in base.cols], base.width, base.kind, (base.name or 'seq') + '[lo:]')
+        self.base, self.lo = base, lo
+        self.shape = base.shape
+
+    def get(self, i):
+        return self.base.get(i + self.lo)
+
+
 def shape_of(v):
     """Structure of a value made of scalars: ('s', sort) | ('o', sort) | ('t'|'l'|'r', [shapes]) | ('d', [(key, shape)])."""
     if isinstance(v, Opaque):
